@@ -204,12 +204,20 @@ Definition create_cont (o : opd) (g : gst) (l : loc) : gst * pc * loc :=
   | _ => if negb (r =? c18_e_NoError) then (g, PRmLookup, set_k (set_ret l r) 3) else (g, PPullEval, set_ret l r)
   end.
 
+(* program points that mutate the disk or the tract map; never reached by Read/Stat/Check *)
+Definition wr_pc (p : pc) : bool :=
+  match p with
+  | PSetver | PWrite | PCOpen | PCSetver | PCWrite | PCFinish | PCDelete | PRmDelete | PRmMapdel => true
+  | _ => false
+  end.
+
 (* One small step of one operation.  [inj] is the error oracle's answer for the Disk call made by this step
    (0: the call behaves normally; ignored by silent steps and by CtlRead whose reply is part of the op).
    None: the operation cannot move (blocked in tryLockTract, or finished). *)
 Definition step (V : variant) (g : gst) (o : opd) (p : pc) (l : loc) (inj : Z) : option (gst * pc * loc) :=
   let id := o_tract o in
   let k := o_kind o in
+  if is_reader k && wr_pc p then Some (g, PClose, l) else     (* unreachable: readers have no mutating steps *)
   match p with
   | PStart =>
       match k with
